@@ -147,6 +147,11 @@ public:
   }
 
   bucket_container &operator=(const bucket_container &bc) {
+    if (this == &bc) {
+      // Self-assignment: destroying our buckets first would leave nothing to
+      // copy from.
+      return *this;
+    }
     destroy_buckets();
     copy_allocator(allocator_, bc.allocator_,
                    typename traits_::propagate_on_container_copy_assignment());
